@@ -1,5 +1,265 @@
 package props
 
-import "github.com/taurusgroup/multi-party-sig/verif/fw"
+import (
+	"errors"
+	"fmt"
+	"reflect"
+	"strings"
 
-func runC04State(c *fw.Ctx) {}
+	"github.com/cronokirby/saferith"
+	"github.com/taurusgroup/multi-party-sig/pkg/ecdsa"
+	"github.com/taurusgroup/multi-party-sig/pkg/math/curve"
+	"github.com/taurusgroup/multi-party-sig/pkg/party"
+	"github.com/taurusgroup/multi-party-sig/pkg/protocol"
+	"github.com/taurusgroup/multi-party-sig/verif/fw"
+	"github.com/taurusgroup/multi-party-sig/verif/mut"
+	"github.com/taurusgroup/multi-party-sig/verif/scen"
+	"github.com/taurusgroup/multi-party-sig/verif/sim"
+)
+
+// currentRoundOf returns the cheater's live round object (harness-side introspection).
+func currentRoundOf(h protocol.Handler) reflect.Value {
+	return scen.UnexportedField(h, "currentRound")
+}
+
+func roundTypeName(h protocol.Handler) string {
+	v := currentRoundOf(h)
+	if v.IsNil() {
+		return ""
+	}
+	return v.Elem().Type().String()
+}
+
+// roundField finds an exported field by name on the (pointer-embedded) chain of round structs.
+func roundField(h protocol.Handler, name string) (reflect.Value, bool) {
+	v := currentRoundOf(h).Elem() // *presignN
+	for v.Kind() == reflect.Ptr {
+		v = v.Elem()
+	}
+	var find func(v reflect.Value) (reflect.Value, bool)
+	find = func(v reflect.Value) (reflect.Value, bool) {
+		if v.Kind() != reflect.Struct {
+			return reflect.Value{}, false
+		}
+		t := v.Type()
+		for i := 0; i < v.NumField(); i++ {
+			f := t.Field(i)
+			if f.Name == name && !f.Anonymous {
+				return v.Field(i), true
+			}
+		}
+		for i := 0; i < v.NumField(); i++ {
+			f := t.Field(i)
+			if f.Anonymous {
+				fv := v.Field(i)
+				if fv.Kind() == reflect.Ptr {
+					if fv.IsNil() {
+						continue
+					}
+					fv = fv.Elem()
+				}
+				if r, ok := find(fv); ok {
+					return r, true
+				}
+			}
+		}
+		return reflect.Value{}, false
+	}
+	return find(v)
+}
+
+// runC04State: a CMP presigner deviates in its *state* (x, gamma, k, or its sigma share) while all of
+// its individual proofs stay valid; every honest signer must single it out, in the offline, full and
+// online variants.
+func runC04State(c *fw.Ctx) {
+	variant := c.S.Draw(3, "variant") // 0 offline, 1 full, 2 online
+	kind := []scen.Kind{scen.KPresign, scen.KPresignFull, scen.KPresignOnline}[variant]
+	sc := scen.DrawScenario(c, scen.ScenarioOpts{CMPPerMille: 1000, MinN: 2, MaxN: 3, Kinds: []scen.Kind{kind}})
+	parts := sc.Parts
+	cheater := parts[c.S.Draw(len(parts), "cheater")]
+	var honest []party.ID
+	for _, id := range parts {
+		if id != cheater {
+			honest = append(honest, id)
+		}
+	}
+	devs := []string{"x-during-round3", "gamma-during-round3", "x-from-round3-on", "k-during-round3"}
+	dev := devs[c.S.Draw(len(devs), "deviation")]
+	if variant == 2 {
+		dev = []string{"sigma-share-chi", "sigma-share-k"}[c.S.Draw(2, "deviation")]
+		// the cheater starts the online phase with a presignature whose own share is off by one
+		pre := sc.Pre[cheater]
+		cp := *pre
+		one := scen.LibScalar(bigOne)
+		if dev == "sigma-share-chi" {
+			cp.ChiShare = curve.Secp256k1{}.NewScalar().Set(pre.ChiShare).Add(one)
+		} else {
+			cp.KShare = curve.Secp256k1{}.NewScalar().Set(pre.KShare).Add(one)
+		}
+		np := map[party.ID]*ecdsa.PreSignature{}
+		for k, v := range sc.Pre {
+			np[k] = v
+		}
+		np[cheater] = &cp
+		sc.Pre = np
+	}
+	sess := scen.NewSessionL(c, "run", sc.Mk(), func(id party.ID) bool { return id != cheater }, nil)
+	n := sess.Net
+	cn := sess.Nodes[cheater]
+	applied, restored := false, false
+	n.Mutate = func(from *sim.Node, m *protocol.Message, to *sim.Node) *protocol.Message {
+		if m.RoundNumber == 0 {
+			return nil // a real attacker does not announce itself
+		}
+		return m
+	}
+	perturb := func(sign int) bool {
+		switch dev {
+		case "x-during-round3", "x-from-round3-on":
+			f, ok := roundField(cn.H, "SecretECDSA")
+			if !ok {
+				scen.Fatalf("C04: field SecretECDSA not found on %s", roundTypeName(cn.H))
+			}
+			x := f.Interface().(curve.Scalar)
+			d := scen.LibScalar(bigOne)
+			if sign < 0 {
+				d = d.Negate()
+			}
+			f.Set(reflect.ValueOf(curve.Secp256k1{}.NewScalar().Set(x).Add(d)))
+		case "gamma-during-round3", "k-during-round3":
+			name := "GammaShare"
+			if dev == "k-during-round3" {
+				name = "KShare"
+			}
+			f, ok := roundField(cn.H, name)
+			if !ok {
+				scen.Fatalf("C04: field %s not found on %s", name, roundTypeName(cn.H))
+			}
+			switch g := f.Interface().(type) {
+			case *saferith.Int:
+				one := new(saferith.Int).SetUint64(1)
+				if sign < 0 {
+					one.Neg(1)
+				}
+				f.Set(reflect.ValueOf(new(saferith.Int).Add(g, one, -1)))
+			case curve.Scalar:
+				d := scen.LibScalar(bigOne)
+				if sign < 0 {
+					d = d.Negate()
+				}
+				f.Set(reflect.ValueOf(curve.Secp256k1{}.NewScalar().Set(g).Add(d)))
+			default:
+				scen.Fatalf("C04: field %s has unexpected type %T", name, g)
+			}
+		}
+		return true
+	}
+	if variant != 2 {
+		n.BeforeDeliver = func(e *sim.Env, to *sim.Node) bool {
+			if to != cn || cn.Dead || cn.H == nil {
+				return true
+			}
+			rt := roundTypeName(cn.H)
+			if !applied && strings.HasSuffix(rt, ".presign3") {
+				applied = perturb(-1)
+			} else if applied && !restored && dev != "x-from-round3-on" && strings.HasSuffix(rt, ".presign4") {
+				perturb(+1)
+				restored = true
+			}
+			return true
+		}
+	} else {
+		applied = true
+	}
+	sess.Run(c, true)
+	c.Res.Desc = fmt.Sprintf("state-level %s cheater=%q deviation=%s policy=%s", sc.Name, cheater, dev, n.Policy.Name())
+	c.Res.DistinctID = fmt.Sprintf("state/%s/%s/cheater-pos-%d", sc.Kind, dev, indexOf(parts, cheater))
+	if !applied {
+		return
+	}
+	c.Res.NonTrivial = true
+	c.Fault("presigner_state_deviation:"+dev, 1)
+	b := &Byz{C: c, Sc: sc, Sess: sess, Cheater: cheater, Honest: honest}
+	b.Applied = &mut.Result{Op: "state:" + dev}
+	b.AppliedAt = "r3/bfalse/to="
+	sigBase := fmt.Sprintf("state-deviation/%s/%s", sc.Kind, dev)
+	// the abort rounds must not crash an honest signer
+	for _, id := range honest {
+		nd := sess.Nodes[id]
+		if nd.Panic != "" {
+			first := nd.Panic
+			if i := strings.Index(first, "\n"); i > 0 {
+				first = first[:i]
+			}
+			c.Violate(sigBase+"/honest-signer-crashed@"+nd.PanicFn, "honest signer %q panicked instead of naming the deviating signer %q: %s\n%s", id, cheater, first, trim5(nd.Panic))
+		}
+		if nd.Hang {
+			c.Violate(sigBase+"/honest-signer-hung", "honest signer %q hung", id)
+		}
+	}
+	if len(c.Res.Violations) > 0 {
+		return
+	}
+	b.CheckBlame()
+	// a signer whose delta / chi / sigma contribution is inconsistent must be singled out by EVERY honest signer
+	outs := b.outcomes()
+	anyValue := false
+	for _, o := range outs {
+		if o.value != nil {
+			anyValue = true
+		}
+	}
+	if anyValue {
+		// the deviation went unnoticed: then the result must at least be correct (C03's concern); for the
+		// offline variant a presignature is not judged here
+		c.Probe("state_deviation_without_effect", 1)
+		b.CheckResults()
+		return
+	}
+	for _, o := range outs {
+		switch {
+		case o.pending:
+			c.Violate(sigBase+"/cheater-not-singled-out-pending", "honest signer %q is still waiting at quiescence: the deviating signer %q was not identified (other outcomes: %s)", o.id, cheater, outcomeString(outs))
+		case o.err != nil:
+			var pe protocol.Error
+			if errors.As(o.err, &pe) {
+				relayed := pe.Err != nil && strings.HasPrefix(pe.Err.Error(), "aborted by other party")
+				if relayed {
+					continue
+				}
+				if len(pe.Culprits) != 1 || pe.Culprits[0] != cheater {
+					c.Violate(sigBase+"/cheater-not-singled-out", "honest signer %q ended with %q naming %v; the deviating signer is %q", o.id, trimS(pe.Err.Error(), 160), pe.Culprits, cheater)
+				} else {
+					c.Probe("cheater_singled_out", 1)
+				}
+			}
+		}
+	}
+	c.Res.Sample = map[string]interface{}{"desc": c.Res.Desc, "outcomes": outcomeString(outs)}
+}
+
+func outcomeString(outs []outcome) string {
+	s := ""
+	for _, o := range outs {
+		switch {
+		case o.dead:
+			s += fmt.Sprintf("%s:crashed ", o.id)
+		case o.value != nil:
+			s += fmt.Sprintf("%s:value ", o.id)
+		case o.pending:
+			s += fmt.Sprintf("%s:pending ", o.id)
+		default:
+			s += fmt.Sprintf("%s:error(%s) ", o.id, trimS(o.err.Error(), 80))
+		}
+	}
+	return s
+}
+
+func indexOf(ids []party.ID, x party.ID) int {
+	for i, id := range ids {
+		if id == x {
+			return i
+		}
+	}
+	return -1
+}
